@@ -46,6 +46,10 @@ fn generate(seed: u64, n: usize, tier: &str, out: &mut dyn Write) {
             ip8: if i % 3 == 0 { 7 } else { 4 },
             computed_inputs: i % 7 == 0,
             nondet: false,
+            ext_outputs: false,
+            all_mut: false,
+            n_in: 0,
+            small: false,
         };
         let (spec, ins, consts, outs) = random_graph(&mut rng, &opts);
         let runs = strategy_matrix(&mut rng, ins.len(), full || i % 10 == 0);
